@@ -12,6 +12,7 @@ struct GTerm {
     cells: spec_fn(int) -> Cell,
     ops: nat,                  // number of cursor / write / clear operations performed (silence, C06)
     flushed: nat,
+    errs: nat,                 // number of operations that returned an I/O error (C18: errors are reported)
 }
 impl GTerm {
     spec fn wf(self) -> bool { 1 <= self.w <= 65535 && 1 <= self.h <= 65535 && self.col <= self.w }   // width()/height() return u16
@@ -51,21 +52,21 @@ impl Term {
     #[verifier::external_body]
     fn move_cursor_up(&mut self, n: usize) -> (r: Result<(), IoError>)
         requires old(self)@.wf()
-        ensures final(self)@.same_geom(old(self)@), final(self)@.wf(), final(self)@.flushed == old(self)@.flushed,
+        ensures final(self)@.errs == old(self)@.errs + (if r.is_err() { 1nat } else { 0nat }), final(self)@.same_geom(old(self)@), final(self)@.wf(), final(self)@.flushed == old(self)@.flushed,
             r.is_ok() ==> final(self)@.row == old(self)@.row - n && final(self)@.cells == old(self)@.cells
                 && final(self)@.col == old(self)@.col && final(self)@.ops == old(self)@.ops + 1
     { unimplemented!() }
     #[verifier::external_body]
     fn move_cursor_down(&mut self, n: usize) -> (r: Result<(), IoError>)
         requires old(self)@.wf()
-        ensures final(self)@.same_geom(old(self)@), final(self)@.wf(), final(self)@.flushed == old(self)@.flushed,
+        ensures final(self)@.errs == old(self)@.errs + (if r.is_err() { 1nat } else { 0nat }), final(self)@.same_geom(old(self)@), final(self)@.wf(), final(self)@.flushed == old(self)@.flushed,
             r.is_ok() ==> final(self)@.row == old(self)@.row + n && final(self)@.cells == old(self)@.cells
                 && final(self)@.col == old(self)@.col && final(self)@.ops == old(self)@.ops + 1
     { unimplemented!() }
     #[verifier::external_body]
     fn clear_line(&mut self) -> (r: Result<(), IoError>)
         requires old(self)@.wf()
-        ensures final(self)@.same_geom(old(self)@), final(self)@.wf(), final(self)@.flushed == old(self)@.flushed,
+        ensures final(self)@.errs == old(self)@.errs + (if r.is_err() { 1nat } else { 0nat }), final(self)@.same_geom(old(self)@), final(self)@.wf(), final(self)@.flushed == old(self)@.flushed,
             r.is_ok() ==> ({
                 let t = old(self)@; let t2 = final(self)@;
                 &&& t2.row == t.row && t2.col == 0 && t2.ops == t.ops + 1
@@ -76,7 +77,7 @@ impl Term {
     #[verifier::external_body]
     fn write_str(&mut self, s: &str) -> (r: Result<(), IoError>)
         requires old(self)@.wf()
-        ensures final(self)@.same_geom(old(self)@), final(self)@.wf(), final(self)@.flushed == old(self)@.flushed,
+        ensures final(self)@.errs == old(self)@.errs + (if r.is_err() { 1nat } else { 0nat }), final(self)@.same_geom(old(self)@), final(self)@.wf(), final(self)@.flushed == old(self)@.flushed,
             r.is_ok() && !is_cr(s@) ==> after_write(old(self)@, s@, final(self)@),
             r.is_ok() && is_cr(s@) ==> final(self)@.row == old(self)@.row && final(self)@.col == 0
                 && final(self)@.cells == old(self)@.cells && final(self)@.ops == old(self)@.ops + 1
@@ -84,7 +85,7 @@ impl Term {
     #[verifier::external_body]
     fn write_line(&mut self, s: &str) -> (r: Result<(), IoError>)
         requires old(self)@.wf()
-        ensures final(self)@.same_geom(old(self)@), final(self)@.wf(), final(self)@.flushed == old(self)@.flushed,
+        ensures final(self)@.errs == old(self)@.errs + (if r.is_err() { 1nat } else { 0nat }), final(self)@.same_geom(old(self)@), final(self)@.wf(), final(self)@.flushed == old(self)@.flushed,
             r.is_ok() ==> exists|m: GTerm| after_write(old(self)@, s@, m)
                 && final(self)@.row == m.row + 1 && final(self)@.col == 0
                 && final(self)@.cells == m.cells && final(self)@.ops == m.ops
@@ -92,7 +93,7 @@ impl Term {
     #[verifier::external_body]
     fn flush(&mut self) -> (r: Result<(), IoError>)
         requires old(self)@.wf()
-        ensures final(self)@.same_geom(old(self)@), final(self)@.wf(),
+        ensures final(self)@.errs == old(self)@.errs + (if r.is_err() { 1nat } else { 0nat }), final(self)@.same_geom(old(self)@), final(self)@.wf(),
             final(self)@.ops == old(self)@.ops,
             r.is_ok() ==> final(self)@.row == old(self)@.row && final(self)@.col == old(self)@.col
                 && final(self)@.cells == old(self)@.cells && final(self)@.flushed == old(self)@.flushed + 1,
